@@ -167,13 +167,20 @@ macro_rules! with_diff {
         let t = &$case.text;
         let mut cfg = TextDiff::configure();
         cfg.algorithm(t.alg.to());
+        // (the shortcut `TextDiff::from_lines` stands for the default
+        // configuration)
+        let shortcut = t.alg == crate::gen::Alg::Myers && t.hasher.1 & 16 != 0;
         if t.bytes {
-            let $diff = cfg.diff_lines(&t.old[..], &t.new[..]);
+            let $diff = if shortcut {
+                TextDiff::from_lines(&t.old[..], &t.new[..])
+            } else {
+                cfg.diff_lines(&t.old[..], &t.new[..])
+            };
             $body
         } else {
             let o = std::str::from_utf8(&t.old).expect("str case must be UTF-8");
             let n = std::str::from_utf8(&t.new).expect("str case must be UTF-8");
-            let $diff = cfg.diff_lines(o, n);
+            let $diff = if shortcut { TextDiff::from_lines(o, n) } else { cfg.diff_lines(o, n) };
             $body
         }
     }};
